@@ -295,3 +295,49 @@ reg("C13", "exploration",
                      "header_schedules_equal": 900, "archive_reads_equal": 100, "archive_reads_equal_async": 100,
                      "archive_writes_equal": 100, "archive_writes_equal_async": 100, "archives_with_leaves": 4,
                      "pending_patterns_equal": 4096, "short_transfers": 100000, "pending_answers": 10000}})
+
+
+def c14_python(cfg, tier, seed, work, agg):
+    """gzip output decoded by an implementation unrelated to flate2 (Python's gzip/zlib)."""
+    import glob
+    import os
+    import sys
+    here = os.path.dirname(os.path.abspath(__file__))
+    sys.path.insert(0, os.path.join(here, "pyref"))
+    import pmtiles_ref as P
+    c = agg["counters"]
+    for f in sorted(glob.glob(os.path.join(work, "py", "*.gz"))):
+        raw = open(f[:-3] + ".raw", "rb").read()
+        why = None
+        try:
+            if P.gunzip_unrelated(open(f, "rb").read()) != raw:
+                why = "Python gzip decodes the output to different bytes"
+        except Exception as e:  # noqa: BLE001
+            why = "Python gzip rejects the output: %r" % (e,)
+        c["python_gzip_files"] = c.get("python_gzip_files", 0) + 1
+        if why:
+            sig = "C14|python-gzip|non-standard-stream|" + why.split(":")[0]
+            v = agg["violations"].setdefault(sig, {"signature": sig, "what": why, "count": 0,
+                                                 "replay": {"property": "C14", "tier": tier, "seed": seed, "case": 0, "profile": "checked",
+                                                            "api": "python-gzip", "class": "non-standard-stream", "what": why,
+                                                            "materialised": {"len": len(raw)}}})
+            v["count"] += 1
+
+
+def c14_phases(tier):
+    return [{"name": "main", "profile": "checked", "mem_gib": 12, "timeout_s": 900 if tier == "quick" else 7200},
+            {"name": "python-gzip", "kind": "python", "fn": c14_python}]
+
+
+reg("C14", "exploration",
+    "cases = (byte string, codec, mode): payloads {empty, 1 byte, runs, text, incompressible, tiny, sizes around 4 KiB/32 KiB/64 KiB/"
+    "128 KiB boundaries, multi-megabyte repetitive and random} x {none, gzip, brotli, zstd} x {one-shot compress_all/decompress_all; "
+    "streams from the upstream encoders with foreign parameters/framing fed to decompress_all; streaming through compress/decompress "
+    "(compress_async/decompress_async) with caller chunk schedules {1,2,3,7,64,4096,65536, random} over underlying streams that "
+    "fragment and answer Pending}; every composition of the write chunks for |x| <= 12; 'unknown' on all eight entry points. "
+    "Distinct by fingerprint of payload; non-trivial = >= 2 bytes. Oracle: identity + upstream decoders with exact stream "
+    "consumption + Python gzip for a sample of gzip outputs.",
+    require={"any": {"one_shot_inverse_ok": 400, "upstream_decodes_ok": 400, "foreign_streams_decoded": 400,
+                     "streamed_writes_decode_upstream": 2000, "streamed_reads_equal": 2000, "async_streams": 800, "compositions": 1000,
+                     "unknown_refused": 8, "python_gzip_files": 3, "payload.empty": 5, "payload.large": 5}},
+    phases=c14_phases)
